@@ -7,6 +7,7 @@ by the differential harness); `A`/`B` below are the reserves the swap computes w
 (raw, exact: `amt·(P − fee)`), `post = A·P + a'` the post-swap in-balance (raw).
 -/
 import ElysModel.Lemmas.AmmSwap
+import ElysModel.Lemmas.AmmOracle
 namespace Elys.Amm.C03
 open Elys Elys.Amm
 
@@ -150,6 +151,68 @@ example : ∀ y v, 0 < y → y ≤ P → pow y P = .ok v → v - y ≤ powPrecis
 /-- a concrete unequal-weight swap (1:4) the partial theorem applies to. -/
 example : calcOutGivenIn { balIn := 1000000, balOut := 2000000, wIn := 1, wOut := 4 } 1000 3000000000000000
     = .ok (498, 622659583959880) := by rfl
+
+/-! ### oracle pools: what the pool pays out is never worth more, at the oracle prices, than what is paid in -/
+
+/-- oracle pool, exact-in (`oSwapOut`, the port of `SwapOutAmtGivenIn` with `UseOracle`): for every
+weight-breaking fee in [0, 1] that was applied (`r.wbf`, a ghost output of the port), swap fee in [0, 1),
+any slippage (it is clamped at 0) and external-liquidity ratio ≥ 0:
+`out·p_out ≤ in·p_in + p_out/(2·10¹⁸)` (prices as raw Decs). -/
+theorem oracle_value (p : OPool) (iIn : Nat) (amt fee : Int) (pr : OParams) (r : OSwapRes)
+    (hamt : 0 ≤ amt) (hpi : 0 ≤ (p.get iIn).price) (hpo : 0 ≤ (p.get (1 - iIn)).price)
+    (hext : 0 ≤ (p.get (1 - iIn)).ext) (hfee : 0 ≤ fee) (hw0 : 0 ≤ r.wbf) (hw1 : r.wbf ≤ P)
+    (h : oSwapOut p iIn amt fee pr = .ok r) :
+    2 * P * r.amount * (p.get (1 - iIn)).price ≤ 2 * P * amt * (p.get iIn).price + (p.get (1 - iIn)).price := by
+  obtain ⟨hf1, hpo0, eo, sa, hsa, ea⟩ := oSwapOut_ok p iIn amt fee pr r h
+  have hP := P_pos
+  have hpo' : 0 < (p.get (1 - iIn)).price := by omega
+  have hq := oracle_quote_le amt (p.get iIn).price (p.get (1 - iIn)).price hamt hpi hpo'
+  rw [← eo] at hq
+  have hoo : 0 ≤ r.oracleAmount := by
+    rw [eo, mul_ofInt_left]
+    unfold Dec.quo
+    apply monotone_round2_le
+    exact Int.tdiv_nonneg (Int.mul_nonneg (Int.mul_nonneg (Int.mul_nonneg hamt hpi) (by omega)) (by omega)) (by omega)
+  have hse : 0 ≤ Dec.mul sa (p.get (1 - iIn)).ext := by
+    unfold Dec.mul; exact monotone_round2_le _ (Int.mul_nonneg hsa hext)
+  have ht := oOutTail_le r.oracleAmount _ r.wbf fee hoo hse hw0 hw1 hfee (by omega)
+  rw [← ea] at ht
+  exact oracle_value_core _ _ _ _ _ P hP hpo ht hq
+
+/-- oracle pool, exact-out (`oSwapIn`, the port of `SwapInAmtGivenOut` with `UseOracle`): the charge is worth
+at least what is paid out, up to (1/2 + 10⁻¹⁸) raw units of the in-price:
+`in·p_in ≥ out·p_out − p_in·(1/2 + 10⁻¹⁸)/10¹⁸`. -/
+theorem oracle_in_value (p : OPool) (iIn : Nat) (amt fee : Int) (pr : OParams) (r : OSwapRes)
+    (hamt : 0 ≤ amt) (hpi : 0 ≤ (p.get iIn).price) (hpo : 0 ≤ (p.get (1 - iIn)).price)
+    (hext : 0 ≤ (p.get (1 - iIn)).ext) (hfee : 0 ≤ fee) (hw0 : 0 ≤ r.wbf) (hw1 : r.wbf < P)
+    (h : oSwapIn p iIn amt fee pr = .ok r) :
+    2 * P * P * amt * (p.get (1 - iIn)).price ≤ 2 * P * P * r.amount * (p.get iIn).price + (p.get iIn).price * (P + 2) := by
+  obtain ⟨hf1, hpi0, eo, sa, hsa, ea⟩ := oSwapIn_ok p iIn amt fee pr r h
+  have hP := P_pos
+  have hpi' : 0 < (p.get iIn).price := by omega
+  have hq := oracle_in_quote_ge amt (p.get iIn).price (p.get (1 - iIn)).price hamt hpo hpi'
+  rw [← eo] at hq
+  have hoo : 0 ≤ r.oracleAmount := by
+    rw [eo, mul_ofInt_left]
+    unfold Dec.quo
+    apply monotone_round2_le
+    exact Int.tdiv_nonneg (Int.mul_nonneg (Int.mul_nonneg (Int.mul_nonneg hamt hpo) (by omega)) (by omega)) (by omega)
+  have hse : 0 ≤ Dec.mul sa (p.get (1 - iIn)).ext := by
+    unfold Dec.mul; exact monotone_round2_le _ (Int.mul_nonneg hsa hext)
+  have ht := oInTail_ge r.oracleAmount _ r.wbf fee hoo hse hw0 hw1 hfee hf1
+  rw [← ea] at ht
+  exact oracle_in_value_core _ _ _ _ _ P hP hpi ht hq
+
+/-- non-vacuity: a 50/50 oracle pool (10¹² : 2.5·10¹¹ at prices 10⁻⁶ : 4·10⁻⁶, external-liquidity ratio 2 on the
+out asset, default weight-breaking-fee parameters), 10⁹ in at 0.3 %: pays 249000249 with a weight-breaking fee
+of about 0.05 % — all hypotheses of `oracle_value` hold. -/
+example : oSwapOut
+    { a0 := { amount := 1000000000000, weight := 1, ext := P, price := 1000000000000, snap := 1000000000000 },
+      a1 := { amount := 250000000000, weight := 1, ext := 2 * P, price := 4000000000000, snap := 250000000000 } }
+    0 1000000000 3000000000000000
+    { exponent := 2500000000000000000, multiplier := 500000000000000, portion := 500000000000000000, threshold := 300000000000000000, perpFactor := P }
+    = .ok { amount := 249000249, slippage := 499752000000000, slippageAmount := 62469000000000000000000,
+            bonus := -502505632818039, oracleAmount := 250000000000000000000000000, wbf := 502505632818039 } := by rfl
 
 /-- non-vacuity: a concrete equal-weight swap (reserves 10⁶ : 2·10⁶, fee 0.3 %, 1000 in) satisfies the
 hypotheses of the theorems above and pays 1992 = ⌊exact⌋. -/
